@@ -153,17 +153,25 @@ func keReader(spec Val, stream []byte) *bufio.Reader {
 // runs ReadData `calls` times on one reader and one Data (stopping at the first error):
 // per call [data, error class]; then what is left unread of the stream, also after an error
 func keRun(spec Val, stream []byte, d0 Val, calls int) Val {
-	rd := keReader(spec, stream)
 	d := keDataFrom(d0)
 	var res []Val
-	for i := 0; i < calls; i++ {
-		err := ntske.ReadData(context.Background(), discardLog, rd, &d)
-		res = append(res, VL(keDataVal(&d), VI(keErrClass(err))))
-		if err != nil {
-			break
+	var rest []byte
+	run := func(rd *bufio.Reader) {
+		for i := 0; i < calls; i++ {
+			err := ntske.ReadData(context.Background(), discardLog, rd, &d)
+			res = append(res, VL(keDataVal(&d), VI(keErrClass(err))))
+			if err != nil {
+				break
+			}
 		}
+		rest, _ = io.ReadAll(rd)
 	}
-	rest, _ := io.ReadAll(rd)
+	if spec.L[0].Int() == 0 && calls == 1 { // read in one piece straight from the bytes: they must stay as they are
+		s := append([]byte(nil), stream...)
+		watchInput(inKeReadData, s, nil, func() { run(bufio.NewReader(bytes.NewReader(s))) })
+	} else {
+		run(keReader(spec, stream))
+	}
 	return VL(VL(res...), VBy(rest))
 }
 
